@@ -112,6 +112,9 @@ def make_scene(eng, cname, role, rootkind=None, second=False):
     st.g["Res"] = smt.fresh("Res", smt.ArrVV)
     st.g["Wr"] = smt.fresh("Wr", smt.ArrVI)
     st.g["Depth"] = smt.fresh("Depth", smt.ArrII)
+    st.g["FS"] = smt.fresh("FS", smt.ArrVV)          # filename -> bytes (VAbsent: no such file)   [E-FS]
+    st.g["Meta"] = smt.fresh("Meta", smt.ArrVV)      # filename -> (st_size, st_mtime_ns) token
+    st.g["FsTick"] = smt.fresh("FsTick", IntS)
     st.g["Alloc"] = smt.fresh("Alloc", IntS)
     st.assume(st.g["Alloc"] > 100000)
     fd, fl = family(eng, ci)
@@ -165,12 +168,30 @@ def make_scene(eng, cname, role, rootkind=None, second=False):
                 st.g[nm] = smt.fresh(nm, smt.ArrVB)
             st.assume(z3.Select(st.g[nm], to_val(st.rec(n).fields["_filename"])))
     sc.nodes = nodes
+    if backend_base(rootcls) == "JSONCollection":
+        # the abstract resource content of a JSON file is the decoded content of its bytes
+        from .stdlib_spec import json_loads
+        fn = to_val(st.rec(root).fields["_filename"])
+        st.assume(st.sel("Res", fn) == z3.If(st.sel("FS", fn) == smt.VAbsent, smt.VAbsent, json_loads(st.sel("FS", fn))))
+    # Inv.res: a resource that exists holds a JSON document, never the bare value null
+    st.assume(st.sel("Res", resid(eng, st, root)) != smt.VNone)
     if second:
-        o2 = new_node(eng, st, rootcls, "o2")
+        o2cls = ci if second == "other" else rootcls
+        o2 = new_node(eng, st, o2cls, "o2")
+        lsname = eng.R["classes"][o2cls.name]["loadsave"]
         r2 = st.rec(o2)
-        for f in BACKEND_FIELDS[backend_base(rootcls)]:
-            if f not in ("_write_concern", "_object_codec"):
-                r2.fields[f] = st.rec(root).fields[f]
+        if second != "other":
+            for f in BACKEND_FIELDS[backend_base(rootcls)]:
+                if f not in ("_write_concern", "_object_codec"):
+                    r2.fields[f] = st.rec(root).fields[f]
+        else:
+            o2 = o2
+            # an unrelated object: its own resource (Inv.locks for it as well)
+            info2 = eng.R["classes"][o2cls.name]
+            if info2["supports_threading"]:
+                st.assume(z3.Select(st.g["LockDom:" + o2cls.name], to_val(r2.fields["_filename"])))
+            st.assume(Val.addr(r2.fields["_data"].term) != Val.addr(st.rec(root).fields["_data"].term))
+            st.assume(Val.addr(r2.fields["_data"].term) != Val.addr(st.rec(self_).fields["_data"].term))
         susp2 = st.new_obj(P.classes["_CounterContext"], {"_count": Iv(z3.IntVal(0))}, tag="susp2")
         ls2 = st.new_obj(P.classes[lsname], {"_collection": o2}, tag="loadsave2")
         r2.fields["_suspend_sync"] = susp2
@@ -178,7 +199,7 @@ def make_scene(eng, cname, role, rootkind=None, second=False):
         if sc.buffered:
             b2 = smt.fresh("bobj0_o2", IntS)
             st.assume(b2 >= 0)
-            flush = P.lookup_method(rootcls, "_flush")
+            flush = P.lookup_method(o2cls, "_flush")
             r2.fields["buffered"] = st.new_obj(P.classes["_CounterFuncContext"],
                                                {"_count": Iv(b2), "_func": BoundV(o2, flush)}, tag="buffered:o2")
         sc.o2 = o2
